@@ -212,7 +212,11 @@ static void one_pattern(const char *code, long nl)
 						else
 							nv_viol("c14-result", "kind=subst cmd=\":%s\" ic=%d line=\"%s\" result=\"%s\" reference=\"%s\"",
 								nv_esc(cmd, -1), ic, nv_esc(lines[k], -1), nv_esc(got, -1), nv_esc(exp, -1));
-					} else if (!valid_utf8(got)) {
+					}
+					/* C16 (d): whatever the substitution did, valid UTF-8 stays valid UTF-8 */
+					if (!nv_re_depthhit && valid_utf8(lines[k]) && !valid_utf8(got))
+						nv_viol("c16-invalid-utf8", "kind=subst cmd=\":%s\" ic=%d line=\"%s\": the result \"%s\" is not valid UTF-8", nv_esc(cmd, -1), ic, nv_esc(lines[k], -1), nv_esc(got, -1));
+					if (0) {
 						nv_viol("c14-utf8", "kind=subst cmd=\":%s\" line=\"%s\" result is not valid UTF-8", nv_esc(cmd, -1), nv_esc(lines[k], -1));
 					}
 					free(got);
